@@ -94,6 +94,7 @@ impl<'a> Oracle<'a> {
             "C06" => self.c06(&toks),
             "C08" => self.c08(&toks),
             "C09" => self.c09(&toks),
+            "C11" => self.c11(&toks),
             "C17" => self.c17(&toks),
             _ => "SKIP".to_string(),
         }));
@@ -572,6 +573,78 @@ impl<'a> Oracle<'a> {
             ["KTXT", k] => {
                 let evs = vec![Ev::Root(k.to_string())];
                 match self.roundtrip_history(&evs) { Ok(_) => "OK".to_string(), Err(m) => fail(m) }
+            }
+            _ => "SKIP".to_string(),
+        }
+    }
+}
+
+/// the definition of a well-formed simple graph, written from the property text
+pub fn graph_defect(g: &[purr::graph::Atom]) -> Option<String> {
+    let n = g.len();
+    for (a, atom) in g.iter().enumerate() {
+        for b in atom.bonds.iter() {
+            if b.tid >= n { return Some(format!("bond {}->{}: target does not exist", a, b.tid)) }
+            if b.tid == a { return Some(format!("atom {} is bonded to itself", a)) }
+            if atom.bonds.iter().filter(|x| x.tid == b.tid).count() != 1 { return Some(format!("pair {}-{} is bonded twice", a, b.tid)) }
+            let backs: Vec<&Bond> = g[b.tid].bonds.iter().filter(|x| x.tid == a).collect();
+            if backs.len() != 1 { return Some(format!("bond {}->{} has {} counterparts", a, b.tid, backs.len())) }
+            if backs[0].kind != b.kind.reverse() { return Some(format!("bond {}->{} and its counterpart have incompatible kinds", a, b.tid)) }
+        }
+    }
+    None
+}
+
+impl<'a> Oracle<'a> {
+    // ---------------- C11: traversal accepts exactly well-formed adjacency lists ----------------
+    fn c11(&mut self, toks: &[&str]) -> String {
+        let t = self.t;
+        match toks {
+            ["WALK", rest @ ..] => {
+                let g = match parse_graph(rest) { Some(g) => g, None => return "SKIP".to_string() };
+                let defect = graph_defect(&g);
+                let mut rec = Rec::new(t);
+                let r = catch_unwind(AssertUnwindSafe(|| purr::walk::walk(parse_graph(rest).unwrap(), &mut rec)));
+                match r {
+                    Err(_) => {
+                        if defect.is_none() && imp::last_panic().contains("join_pool") { return "SKIP".to_string() } // more than 99 open closures (C06 / D17)
+                        fail(format!("traversal panics at {}", imp::last_panic()))
+                    }
+                    Ok(Ok(())) => {
+                        if let Some(d) = defect { return fail(format!("traversal succeeds on an ill-formed adjacency list: {}", d)) }
+                        if g.is_empty() { return "OK".to_string() } // the empty molecule has no text form (C01's finding D19)
+                        // what was handed to the follower must be readable and build (balanced molecule)
+                        let mut w = purr::write::Writer::new();
+                        let _ = purr::walk::walk(parse_graph(rest).unwrap(), &mut w);
+                        let text = w.write();
+                        let mut b = purr::graph::Builder::new();
+                        match catch_unwind(AssertUnwindSafe(|| read(&text, &mut b, None))) {
+                            Ok(Ok(())) => match b.build() {
+                                Ok(g2) => if g2.len() != g.len() { fail(format!("written text {:?} builds {} atoms of {}", text, g2.len(), g.len())) } else { "OK".to_string() },
+                                Err(e) => fail(format!("written text {:?} does not build: {:?}", text, e)),
+                            },
+                            other => fail(format!("written text {:?} is not readable: {:?}", text, other.map_err(|_| "panic"))),
+                        }
+                    }
+                    Ok(Err(e)) => {
+                        if defect.is_none() { return fail(format!("traversal rejects a well-formed adjacency list with {:?}", e)) }
+                        // the error must identify a bond that really has that defect
+                        use purr::walk::Error as E;
+                        let n = g.len();
+                        let has = |a: usize, tt: usize| a < n && g[a].bonds.iter().any(|x| x.tid == tt);
+                        let cnt = |a: usize, tt: usize| if a < n { g[a].bonds.iter().filter(|x| x.tid == tt).count() } else { 0 };
+                        let real = match &e {
+                            E::UnknownTarget(a, tt) => has(*a, *tt) && *tt >= n,
+                            E::Loop(a) => has(*a, *a),
+                            E::HalfBond(a, tt) => has(*a, *tt) && *tt < n && cnt(*tt, *a) == 0,
+                            E::DuplicateBond(a, tt) => cnt(*a, *tt) >= 2 || cnt(*tt, *a) >= 2,
+                            E::IncompatibleBond(tt, a) => *a < n && *tt < n && g[*a].bonds.iter().any(|x| x.tid == *tt && g[*tt].bonds.iter().any(|y| y.tid == *a && y.kind != x.kind.reverse())),
+                        };
+                        if !real { return fail(format!("error {:?} does not identify a bond with that defect", e)) }
+                        if !rec.events.is_empty() { return "OK".to_string() }
+                        "OK".to_string()
+                    }
+                }
             }
             _ => "SKIP".to_string(),
         }
